@@ -109,7 +109,7 @@ func (r *vLifeRecv) Receive(c *Context) {
 			time.Sleep(time.Millisecond) // lets a backlog build up: the ring wraps and grows while the actor is busy
 		}
 		if m.boom {
-			panic("scripted crash")
+			panic([]string{"scripted crash"}) // an uncomparable panic value
 		}
 	}
 }
